@@ -118,8 +118,11 @@ type Hooks struct {
 	Instr func(x *Explorer, st *State, in ssa.Instruction)
 	// Branch is called after a conditional edge was chosen.
 	Branch func(x *Explorer, st *State, cond ssa.Value, taken bool, from *ssa.BasicBlock)
-	// Edge is called for every CFG edge taken (after Branch).
+	// Edge is called for every CFG edge taken (after Branch), once the phis of
+	// the target block have been assigned and stale facts dropped.
 	Edge func(x *Explorer, st *State, from, to *ssa.BasicBlock)
+	// PreEdge is called for every CFG edge before any of that happens.
+	PreEdge func(x *Explorer, st *State, from, to *ssa.BasicBlock)
 	// Exit is called at Return (ret != nil) and at Panic (ret == nil).
 	Exit func(x *Explorer, st *State, ret *ssa.Return, pan *ssa.Panic)
 	// CallEffect lets a rule describe the effect of a call on facts (e.g. "the
@@ -162,12 +165,39 @@ type Explorer struct {
 	// path is remembered (st.ali), so rules can ask where a value came from.
 	AliasPhis map[*ssa.Phi]bool
 	byKeyPhi  map[string]*ssa.Phi
+	// Filter, when set, restricts which fact keys are remembered at all (keys
+	// forced with Track are always kept). Rules use it to leave out conditions
+	// that cannot matter for them (configuration fields, integer counters), which
+	// keeps the explored state space small. Dropping facts only adds paths.
+	Filter func(key string) bool
+	// shapes of addresses this function stores to: a load from such an address
+	// is a register whose value must not follow later stores (see unstableLoad)
+	storedField  map[*types.Var]bool
+	storedAlloc  map[*ssa.Alloc]bool
+	storedGlobal map[*ssa.Global]bool
 }
 
 func NewExplorer(p *Prog, fn *ssa.Function, h Hooks) *Explorer {
 	x := &Explorer{P: p, Fn: fn, H: h, ids: map[ssa.Value]int{}, canon: map[ssa.Value]string{},
 		defs: map[*ssa.BasicBlock][]string{}, MaxStates: 400000, escAlloc: map[*ssa.Alloc]bool{}, byKey: map[string]ssa.Value{}}
 	x.mods = p.modInfo()
+	x.storedField, x.storedAlloc, x.storedGlobal = map[*types.Var]bool{}, map[*ssa.Alloc]bool{}, map[*ssa.Global]bool{}
+	for _, b := range fn.Blocks {
+		for _, in := range b.Instrs {
+			if st, ok := in.(*ssa.Store); ok {
+				switch a := st.Addr.(type) {
+				case *ssa.FieldAddr:
+					if fv := fieldVar(a.X.Type(), a.Field); fv != nil {
+						x.storedField[fv] = true
+					}
+				case *ssa.Alloc:
+					x.storedAlloc[a] = true
+				case *ssa.Global:
+					x.storedGlobal[a] = true
+				}
+			}
+		}
+	}
 	n := 0
 	for _, prm := range fn.Params {
 		n++
@@ -446,7 +476,20 @@ func stripConv(v ssa.Value) ssa.Value {
 	}
 }
 
-func (x *Explorer) tracked(key string) bool { return x.TrackAll || x.track[key] >= 2 }
+func (x *Explorer) tracked(key string) bool {
+	if x.keep[key] {
+		return true
+	}
+	if x.Filter != nil && !x.Filter(key) {
+		return false
+	}
+	return x.TrackAll || x.track[key] >= 2
+}
+
+// allowed: may a fact with this key be stored at all (Filter mode)?
+func (x *Explorer) allowed(key string) bool {
+	return x.Filter == nil || x.keep[key] || x.Filter(key)
+}
 
 func (x *Explorer) tok(v ssa.Value) string { return "<" + strconv.Itoa(x.ids[v]) + ">" }
 
@@ -488,6 +531,9 @@ func (x *Explorer) canon1(v ssa.Value, depth int) string {
 	case *ssa.UnOp:
 		switch v.Op {
 		case token.MUL:
+			if x.unstableLoad(v) {
+				return "ld" + x.tok(v)
+			}
 			return "*(" + x.canon1(v.X, depth+1) + ")"
 		case token.NOT:
 			return "!(" + x.canon1(v.X, depth+1) + ")"
@@ -530,6 +576,32 @@ func (x *Explorer) canon1(v ssa.Value, depth int) string {
 		return "alloc" + x.tok(v)
 	}
 	return "v" + x.tok(v)
+}
+
+// unstableLoad: the loaded value is a register. Keying it by its memory path
+// (so that separate loads of the same cell correlate) is only sound when the
+// function never stores to a cell of that shape: otherwise a later store would
+// wrongly change what is known about the register. Such loads get a key of
+// their own and receive the memory fact, if any, when they execute.
+func (x *Explorer) unstableLoad(v *ssa.UnOp) bool {
+	switch a := v.X.(type) {
+	case *ssa.FieldAddr:
+		fv := fieldVar(a.X.Type(), a.Field)
+		return fv == nil || x.storedField[fv]
+	case *ssa.Alloc:
+		return x.storedAlloc[a]
+	case *ssa.Global:
+		return x.storedGlobal[a]
+	case *ssa.Parameter, *ssa.FreeVar:
+		// *p: stores through the same pointer value are found by key equality below
+		for _, ref := range *v.X.Referrers() {
+			if st, ok := ref.(*ssa.Store); ok && st.Addr == v.X {
+				return true
+			}
+		}
+		return false
+	}
+	return true
 }
 
 func fieldName(t types.Type, idx int) string {
@@ -1042,6 +1114,9 @@ func (x *Explorer) execBlock(b *ssa.BasicBlock, st *State) []workItem {
 // values that are about to be recomputed in to, and notifies the rule.
 func (x *Explorer) enter(st *State, from, to *ssa.BasicBlock) {
 	x.Edges++
+	if x.H.PreEdge != nil {
+		x.H.PreEdge(x, st, from, to)
+	}
 	idx := -1
 	for i, p := range to.Preds {
 		if p == from {
@@ -1090,6 +1165,9 @@ func (x *Explorer) enter(st *State, from, to *ssa.BasicBlock) {
 	x.pruneDead(st, to)
 	for _, u := range ups {
 		k := x.Canon(u.phi)
+		if !x.allowed(k) && !u.force {
+			continue
+		}
 		if u.a != Unknown {
 			st.facts[k] = u.a
 		}
@@ -1119,6 +1197,17 @@ func (x *Explorer) enter(st *State, from, to *ssa.BasicBlock) {
 // effect applies the memory effect of an instruction to the facts.
 func (x *Explorer) effect(st *State, in ssa.Instruction) {
 	switch in := in.(type) {
+	case *ssa.UnOp:
+		if in.Op == token.MUL && x.unstableLoad(in) {
+			mem := "*(" + x.Canon(in.X) + ")"
+			k := x.Canon(in)
+			if a, ok := st.facts[mem]; ok && a != Unknown && x.allowed(k) {
+				st.facts[k] = a
+			}
+			if i, ok := st.ints[mem]; ok && x.allowed(k) {
+				st.ints[k] = i
+			}
+		}
 	case *ssa.Store:
 		key := "*(" + x.Canon(in.Addr) + ")"
 		if fa, ok := in.Addr.(*ssa.FieldAddr); ok {
@@ -1137,6 +1226,9 @@ func (x *Explorer) effect(st *State, in ssa.Instruction) {
 				delete(st.ints, k)
 			}
 		}
+		if !x.allowed(key) {
+			break
+		}
 		if isBool(in.Val.Type()) || nilable(in.Val.Type()) {
 			if a := x.Eval(st, in.Val); a != Unknown {
 				st.facts[key] = a
@@ -1149,6 +1241,13 @@ func (x *Explorer) effect(st *State, in ssa.Instruction) {
 			return
 		}
 		x.callKills(st, in)
+		if cv, ok := in.(*ssa.Call); ok && nilable(cv.Type()) {
+			if f := cv.Call.StaticCallee(); f != nil && x.P.returnsNonNil(f) {
+				if k := x.Canon(cv); x.allowed(k) {
+					st.facts[k] = True
+				}
+			}
+		}
 	case *ssa.RunDefers:
 		x.killMutable(st, nil)
 	case *ssa.Send, *ssa.Select:
@@ -1410,4 +1509,82 @@ func (p *Prog) implementations(m *types.Func) []*ssa.Function {
 		}
 	}
 	return out
+}
+
+// returnsNonNil: every return of fn yields a value that is syntactically
+// non-nil: an allocation, a closure/map/chan/slice construction, an interface
+// made from a value, the result of another such function, a standard library
+// constructor (New*), or a checked type assertion v.(*T) of a pooled value
+// (assumption: pools never hold typed nil pointers). Single-result functions only.
+func (p *Prog) returnsNonNil(fn *ssa.Function) bool {
+	if p.nonNil == nil {
+		p.nonNil = map[*ssa.Function]int8{}
+	}
+	switch p.nonNil[fn] {
+	case 1:
+		return true
+	case 2, 3:
+		return false // 3 = in progress (cycle)
+	}
+	p.nonNil[fn] = 3
+	ok := p.returnsNonNil1(fn)
+	if ok {
+		p.nonNil[fn] = 1
+	} else {
+		p.nonNil[fn] = 2
+	}
+	return ok
+}
+
+func (p *Prog) returnsNonNil1(fn *ssa.Function) bool {
+	if fn.Signature.Results().Len() != 1 {
+		return false
+	}
+	if !inModule(fn) {
+		// standard library / dependency constructors
+		return strings.HasPrefix(fn.Name(), "New")
+	}
+	if fn.Blocks == nil {
+		return false
+	}
+	seen := map[ssa.Value]bool{}
+	var nn func(v ssa.Value) bool
+	nn = func(v ssa.Value) bool {
+		if seen[v] {
+			return true
+		}
+		seen[v] = true
+		switch v := v.(type) {
+		case *ssa.Alloc, *ssa.MakeClosure, *ssa.MakeMap, *ssa.MakeChan, *ssa.MakeSlice, *ssa.MakeInterface, *ssa.FieldAddr, *ssa.IndexAddr, *ssa.Function, *ssa.Global:
+			return true
+		case *ssa.Phi:
+			for _, e := range v.Edges {
+				if !nn(e) {
+					return false
+				}
+			}
+			return true
+		case *ssa.ChangeType:
+			return nn(v.X)
+		case *ssa.ChangeInterface:
+			return nn(v.X)
+		case *ssa.TypeAssert:
+			return !v.CommaOk
+		case *ssa.Call:
+			if f := v.Call.StaticCallee(); f != nil {
+				return p.returnsNonNil(f)
+			}
+		}
+		return false
+	}
+	n := 0
+	for _, b := range fn.Blocks {
+		if r, ok := b.Instrs[len(b.Instrs)-1].(*ssa.Return); ok {
+			n++
+			if len(r.Results) != 1 || !nn(r.Results[0]) {
+				return false
+			}
+		}
+	}
+	return n > 0
 }
